@@ -50,7 +50,7 @@ func streamSpecAt(name string, n, max int, mixed bool, prefix string) *spec.Spec
 func c17(args []string) {
 	c := chk.New("C17", "exploration", args)
 	c.Build(false)
-	c.Rule("producer/consumer pairs connected by an {os:..} port: n in {1,2,4} (and 12, 24, 40 with the producers exiting last) streamed items with maxConcurrentTasks in 2n..2n+2 (the producer's regular output, when it has one, feeds a consumer of its own), payload sizes {0,1,4095,65536,65537,1 MiB} (below and above the pipe buffer), exit order forced both ways (producer or consumer lingers after closing its files), producers with only a streaming output and with an additional regular output, producer and consumer taking different numbers of slots with maxConcurrentTasks exactly their sum, two producer processes streaming into one in-port of the consumer, consumers with an ordinary in-port beside the streamed one, every third producer also prints 220 kB to stdout / stderr, the re-run histories put the consumer's own output below plain / nested / parent-relative / absolute directories, every fourth run in a working directory whose path contains blanks, SCIPIPE_BUFSIZE and yield seeds varied; history 'complete run, then run again'; oracle: sha256 the consumer read through the FIFO == sha256 the producer wrote (both logged by the commands), consumer output == reference, at the instant Run returns no FIFO and no regular file at the stream path, consumer audit names the producer under Upstream[stream path], hang classification incl. FIFO-blocked children (wchan), re-run terminates and leaves inode/mtime/bytes of consumer outputs untouched. distinct_nontrivial = distinct (n, max, size, exit order, mixed, config) runs whose byte comparison was made")
+	c.Rule("[shapes] a producer task with two streaming ports and a consumer for each; a consumer with a joined in-port beside the streamed one (bytes, pipes gone at return, the producer named in the consumer's record); producer/consumer pairs connected by an {os:..} port: n in {1,2,4} (and 12, 24, 40 with the producers exiting last) streamed items with maxConcurrentTasks in 2n..2n+2 (the producer's regular output, when it has one, feeds a consumer of its own), payload sizes {0,1,4095,65536,65537,1 MiB} (below and above the pipe buffer), exit order forced both ways (producer or consumer lingers after closing its files), producers with only a streaming output and with an additional regular output, producer and consumer taking different numbers of slots with maxConcurrentTasks exactly their sum, two producer processes streaming into one in-port of the consumer, consumers with an ordinary in-port beside the streamed one, every third producer also prints 220 kB to stdout / stderr, the re-run histories put the consumer's own output below plain / nested / parent-relative / absolute directories, every fourth run in a working directory whose path contains blanks, SCIPIPE_BUFSIZE and yield seeds varied; history 'complete run, then run again'; oracle: sha256 the consumer read through the FIFO == sha256 the producer wrote (both logged by the commands), consumer output == reference, at the instant Run returns no FIFO and no regular file at the stream path, consumer audit names the producer under Upstream[stream path], hang classification incl. FIFO-blocked children (wchan), re-run terminates and leaves inode/mtime/bytes of consumer outputs untouched. distinct_nontrivial = distinct (n, max, size, exit order, mixed, config) runs whose byte comparison was made")
 	c.Assume("one consumer per streaming port; maxConcurrentTasks >= 2n (each producer and its consumer can run at the same time)")
 	rng := c.Rand("c17")
 	type job struct {
@@ -364,6 +364,7 @@ func c17(args []string) {
 		c.Count("rerun_histories_ok", 1)
 		c.Nontrivial(fmt.Sprintf("rerun|%d|%v|%d", j.n, j.mixed, j.cshape))
 	})
+	c17shapes(c)
 	c.Finish()
 }
 
@@ -398,4 +399,122 @@ func filesMatchRoot(root string, exp *ref.Result, s *spec.Spec) []mon.Problem {
 		ps = append(ps, mon.Problem{Sig: "file-unexpected", Msg: "additional file " + p})
 	}
 	return ps
+}
+
+// c17shapes: (a) a producer task with two streaming ports, each with a consumer of its own (tee shape): both consumers
+// get their bytes, no pipe is left when Run returns; (b) a consumer that has a joined in-port ({i:refs|join: } behind
+// StreamToSubStream) beside the streamed one: its record names the producing task under the stream path.
+func c17shapes(c *chk.Ctx) {
+	run.Parallel(c.Pick(6, 18), func(i int) {
+		root := c.CaseDir()
+		defer c.Drop(root)
+		in, o1 := []spec.PortDecl{{Name: "in"}}, []spec.PortDecl{{Name: "out"}}
+		two := i%2 == 0
+		n := 1 + i%2
+		s := &spec.Spec{Name: "streamshape", MaxTasks: 3*n + 2, Sources: map[string]string{"ref1.txt": "ref1\n", "ref2.txt": "ref2\n"}}
+		src := &spec.Proc{Name: "src", Kind: spec.KFileSource}
+		for k := 0; k < n; k++ {
+			f := fmt.Sprintf("t%d.txt", k)
+			src.Files = append(src.Files, f)
+			s.Sources[f] = f + "\n"
+		}
+		s.Procs = append(s.Procs, src)
+		bh := vproto.Behaviours{"CONS": {"post": "1200"}, "CONS2": {"post": "1200"}} // (the consumers outlive the producer: their records then name it - see the known finding)
+		if two {
+			orders := [][]spec.PortDecl{{{Name: "a", Stream: true}, {Name: "b", Stream: true}}, {{Name: "b", Stream: true}, {Name: "a", Stream: true}}}
+			s.Procs = append(s.Procs, &spec.Proc{Name: "PROD", Kind: spec.KCmd, Cmd: spec.BuildCmd("PROD", in, orders[(i/2)%2], nil, nil, map[string]string{"size": []string{"300", "70000"}[(i/4)%2]}),
+				Outs: []*spec.Out{{Port: "a", Pattern: "st/{i:in|basename}.a.stream"}, {Port: "b", Pattern: "st/{i:in|basename}.b.stream"}}},
+				&spec.Proc{Name: "CONS", Kind: spec.KCmd, Cmd: spec.BuildCmd("CONS", in, o1, nil, nil, nil), Outs: []*spec.Out{{Port: "out", Pattern: "{i:in|basename}.c1"}}},
+				&spec.Proc{Name: "CONS2", Kind: spec.KCmd, Cmd: spec.BuildCmd("CONS2", in, o1, nil, nil, nil), Outs: []*spec.Out{{Port: "out", Pattern: "{i:in|basename}.c2"}}})
+			s.Conns = append(s.Conns, &spec.Conn{From: "src.out", To: "PROD.in"}, &spec.Conn{From: "PROD.a", To: "CONS.in"}, &spec.Conn{From: "PROD.b", To: "CONS2.in"})
+		} else {
+			s.Procs = append(s.Procs, &spec.Proc{Name: "PROD", Kind: spec.KCmd, Cmd: spec.BuildCmd("PROD", in, []spec.PortDecl{{Name: "out", Stream: true}}, nil, nil, nil), Outs: []*spec.Out{{Port: "out", Pattern: "st/{i:in|basename}.stream"}}},
+				&spec.Proc{Name: "refs", Kind: spec.KFileSource, Files: []string{"ref1.txt", "ref2.txt"}}, &spec.Proc{Name: "SS", Kind: spec.KSubStream},
+				&spec.Proc{Name: "CONS", Kind: spec.KCmd, Cmd: spec.BuildCmd("CONS", []spec.PortDecl{{Name: "in"}, {Name: "refs", Join: "space"}}, o1, nil, nil, nil), Outs: []*spec.Out{{Port: "out", Pattern: "{i:in|basename}.c1"}}})
+			s.Conns = append(s.Conns, &spec.Conn{From: "src.out", To: "PROD.in"}, &spec.Conn{From: "PROD.out", To: "CONS.in"}, &spec.Conn{From: "refs.out", To: "SS.in"}, &spec.Conn{From: "SS.substream", To: "CONS.refs"})
+			s.Sources = map[string]string{"ref1.txt": "ref1\n", "ref2.txt": "ref2\n", "t0.txt": "t0\n"}
+			s.Proc("src").Files = []string{"t0.txt"} // one carrier of the sub-stream, one streamed item
+			s.MaxTasks = 3
+		}
+		cfg := Cfg{Buf: []int{128, 1}[i%2], Procs: 4, NoHooks: i%4 >= 2}
+		desc := map[string]interface{}{"two_streaming_ports": two, "spec": s, "cfg": cfg, "behav": bh}
+		res := execSpec(c, root, s, cfg, bh, false, 0)
+		if res.Hang != "" {
+			if strings.HasPrefix(res.Hang, "deadlock") {
+				c.Violation("streaming-hang", res.Hang+"\n"+clip(res.HangInfo, 800), desc)
+			} else {
+				c.Inconclusive(res.Hang)
+			}
+			return
+		}
+		var ps []mon.Problem
+		if res.Exit != 0 || !res.Returned {
+			ps = append(ps, mon.Problem{Sig: "streaming-run-failed", Msg: fmt.Sprintf("exit %d: %s", res.Exit, tail(res.Output(), 400))})
+		} else {
+			for _, l := range res.Ret.Listing {
+				if l.Mode == "p" || strings.HasSuffix(l.Path, ".fifo") {
+					ps = append(ps, mon.Problem{Sig: "fifo-left", Msg: "FIFO " + l.Path + " exists when Run returns"})
+				}
+			}
+			ti := mon.Index(res.Trace)
+			// bytes: what each consumer read through its streamed port is what the producer wrote on that port
+			for _, cn := range []string{"CONS", "CONS2"} {
+				port := map[string]string{"CONS": "a", "CONS2": "b"}[cn]
+				if !two {
+					port = "out"
+					if cn == "CONS2" {
+						continue
+					}
+				}
+				for _, es := range ti.Ends {
+					for _, e := range es {
+						if e.ID != cn {
+							continue
+						}
+						ok := false
+						for _, ps2 := range ti.Ends {
+							for _, pe := range ps2 {
+								if pe.ID == "PROD" && pe.Outs[port] != "" && pe.Outs[port] == e.Ins["in"] {
+									ok = true
+								}
+							}
+						}
+						if !ok {
+							ps = append(ps, mon.Problem{Sig: "stream-bytes-differ", Msg: fmt.Sprintf("%s read sha %s through its streamed port; no producer task wrote that on port %s", cn, clip(e.Ins["in"], 12), port)})
+						}
+					}
+				}
+			}
+			// audit: the streamed input is an Upstream key that names the producer
+			outs, _ := filepath.Glob(filepath.Join(res.Wd, "*.c[12]"))
+			if len(outs) == 0 {
+				ps = append(ps, mon.Problem{Sig: "streaming-run-failed", Msg: "no consumer output found"})
+			}
+			for _, o := range outs {
+				a, err := mon.LoadAudit(o + ".audit.json")
+				if err != nil {
+					ps = append(ps, mon.Problem{Sig: "audit-file-unreadable", Msg: err.Error()})
+					continue
+				}
+				found := false
+				for k, u := range a.Upstream {
+					if strings.Contains(k, ".stream") && u != nil && u.ProcessName == "PROD" {
+						found = true
+					}
+				}
+				if !found {
+					ps = append(ps, mon.Problem{Sig: "consumer-audit-lacks-stream-key", Msg: fmt.Sprintf("record of %s has Upstream keys %v: none of them is the streamed input with the producing task's record", filepath.Base(o), keysOfAudit(a))})
+				}
+			}
+		}
+		if len(ps) > 0 {
+			for _, sig := range sigSet(ps) {
+				desc["problems"] = mon.Summarize(ps, 10)
+				c.Violation(sig, fmt.Sprintf("two streaming ports=%v: %s", two, strings.Join(mon.Summarize(ps, 4), "\n  ")), desc)
+			}
+			return
+		}
+		c.Count("streamed_items_compared", n)
+		c.Nontrivial(fmt.Sprintf("streamshape|%v|%d|%v", two, n, cfg))
+	})
 }
